@@ -165,3 +165,30 @@ Theorem C13_reset_guard_needed :
     /\ clog s = [9; 102; 7; 9; 6] /\ flat (obr s) (obq s) = [8] /\ st s = StS /\ rg_stranded s = true.
 Proof. exact reset_guard_needed. Qed.
 Print Assumptions C13_reset_guard_needed.
+
+(* ---- where "handshaking" is published (the status relative to the first forwarded byte of a
+   new transfer) ----
+   [rp_step late] is the model with the store of kRelayHandshaking moved, for late = true, from
+   the output reader (in front of `go r.handshake()` and of the forward of the trigger) into
+   the first step of the worker.  The early variant is the faithful model; the current source
+   is the early one (regenerated from wrapOutput / handshake); with the late one there is a
+   schedule -- the client answers at once, the input reader runs between the forward of the
+   trigger and the worker's first step -- after which the ACT line is at the server raw, the
+   server's CFG is parked and NO thread of the relay can move: the bytes are never delivered. *)
+Theorem C13_publish_is_model : forall tm ls s,
+  rp_run false false tm (map RpL ls) (false, s) = rp_keep false (run true tm ls s).
+Proof. exact rp_run_early. Qed.
+Print Assumptions C13_publish_is_model.
+
+Theorem C13_publish_before_forward_present :
+  rp_current = false /\ Consts.relay_handshaking_stored_by_worker = false.
+Proof. exact publish_ok. Qed.
+Print Assumptions C13_publish_before_forward_present.
+
+Theorem C13_publish_before_forward_needed :
+  exists cs ss sched ps, rp_run true false false sched (false, init cs ss) = Some ps
+    /\ slog (snd ps) = [1; 3; 10] /\ clog (snd ps) = [9] /\ flat (obr (snd ps)) (obq (snd ps)) = [2; 10]
+    /\ cin (snd ps) = [] /\ sin (snd ps) = [] /\ st (snd ps) = StH /\ rp_holds (snd ps) = true
+    /\ forall m th, rp_move true false false th (m, ps) = None.
+Proof. exact publish_before_forward_needed. Qed.
+Print Assumptions C13_publish_before_forward_needed.
